@@ -38,9 +38,10 @@ Definition uniform_all (o : op) : Prop :=
 Definition op_ok (o : op) : Prop :=
   uniform_all o /\
   match o_kind o with
-  | OFind | OFirst => query_shape_ok (o_shape o)
+  | OFind | OFirst => query_shape_ok (o_shape o) /\ x_preload (o_x o) = false
   | OCreateInBatches _ => False      (* CreateInBatches: tied by the correspondence and the spec half only *)
-  | _ => goodk (o_shape o) (rkeys (o_recs o)) /\ assocs_ok (op_cx o (o_skip o) DSelf) (o_assocs o)
+  | _ => goodk (o_shape o) (rkeys (o_recs o))
+         /\ (assocs_ok (op_cx o (o_skip o) DSelf) (o_assocs o) /\ x_delassoc (o_x o) = 0)
   end.
 
 Definition op_sched (o : op) : list (list hev) :=
@@ -99,7 +100,7 @@ Lemma run_body_step : forall o s, op_ok o -> is_query o = false -> keys s = rkey
 Proof.
   intros o s (U & OK) NQ K. unfold is_query in NQ. unfold run_body, op_sched.
   assert (TG : map fst (keys s) = map m_tag (o_recs o)) by (rewrite K; apply tags_rkeys).
-  destruct (o_kind o) eqn:KD; try discriminate; try contradiction; destruct OK as (G & AO); rewrite <- K in G.
+  destruct (o_kind o) eqn:KD; try discriminate; try contradiction; destruct OK as (G & AO & XD); rewrite <- K in G.
   - (* Create *)
     rewrite create_pipeline_eq, <- TG.
     apply (cu_body_step (op_cx o (o_skip o) DSelf)); try assumption; try apply U.
@@ -145,7 +146,7 @@ Proof.
     apply (cu_body_step (op_cx o true (upd_dest o))); try assumption; try apply U.
     intros s0 G0. apply stmt_update_step. exact G0.
   - (* Delete *)
-    rewrite <- TG. apply (delete_pipeline_step (op_cx o (o_skip o) DSelf)); try assumption; apply U.
+    rewrite <- TG. apply (delete_pipeline_step (op_cx o (o_skip o) DSelf)); try assumption; try apply U.
 Qed.
 
 (* ---------------------------------------------------------------- the theorems about [run] *)
@@ -159,9 +160,11 @@ Proof.
   - (* queries *)
     destruct OK as (U & OK). unfold is_query in Q. unfold run_body, op_sched.
     destruct (o_kind o) eqn:KD; try discriminate.
-    + destruct (query_pipeline_hooks (op_cx o (o_skip o) DSelf) (o_assocs o) false (o_limit o) (set_recs [] (init_state o)) OK (U PAfterFind) E0) as (H & _ & _).
+    + destruct OK as (OK & XP).
+      destruct (query_pipeline_hooks (op_cx o (o_skip o) DSelf) (o_assocs o) false (o_limit o) (set_recs [] (init_state o)) XP OK (U PAfterFind) E0) as (H & _ & _).
       rewrite H. cbn [s_tr set_recs s_tbl]. rewrite H0, TB, sched_log_single. reflexivity.
-    + destruct (query_pipeline_hooks (op_cx o (o_skip o) DSelf) (o_assocs o) true (o_limit o) (set_recs [] (init_state o)) OK (U PAfterFind) E0) as (H & _ & _).
+    + destruct OK as (OK & XP).
+      destruct (query_pipeline_hooks (op_cx o (o_skip o) DSelf) (o_assocs o) true (o_limit o) (set_recs [] (init_state o)) XP OK (U PAfterFind) E0) as (H & _ & _).
       rewrite H. cbn [s_tr set_recs s_tbl]. rewrite H0, TB, sched_log_single. reflexivity.
   - destruct (run_body_step o (init_state o) OK Q KS) as [_ H _ _].
     rewrite H, H0. unfold gated. rewrite E0, K0. reflexivity.
@@ -231,6 +234,22 @@ Proof.
   rewrite begin_tx_hooks. reflexivity.
 Qed.
 
+Lemma nested_delete_skip_hooks : forall c t tb s, c_skip c = true ->
+  hooks_of (s_tr (nested_delete c t tb s)) = hooks_of (s_tr s).
+Proof.
+  intros c t tb s H. unfold nested_delete. cbn [s_tr].
+  rewrite commit_hooks. rewrite !hooks_phase_skip by exact H.
+  match goal with |- context [if ?b then _ else _] => destruct b end;
+    cbn [s_tr set_tbl emit set_tr]; rewrite ?hooks_of_app, ?begin_tx_hooks; cbn; rewrite ?app_nil_r; reflexivity.
+Qed.
+
+Lemma nested_query_skip_hooks : forall c t tb s, c_skip c = true ->
+  hooks_of (s_tr (nested_query c t tb s)) = hooks_of (s_tr s).
+Proof.
+  intros c t tb s H. unfold nested_query. destruct (negb (is_nil (s_err s))); [reflexivity|].
+  cbn [s_tr]. rewrite hooks_phase_skip by exact H. cbn [s_tr]. rewrite hooks_of_app. cbn. apply app_nil_r.
+Qed.
+
 Lemma run_cb_skip_hooks : forall c a q x s, c_skip c = true ->
   hooks_of (s_tr (run_cb c a q x s)) = hooks_of (s_tr s).
 Proof.
@@ -241,6 +260,11 @@ Proof.
   - unfold save_before_assoc. destruct (is_nil (s_err s)); [|reflexivity]. apply save_assoc_skip_hooks. exact H.
   - unfold save_after_assoc. destruct (is_nil (s_err s)); [|reflexivity].
     rewrite !save_assoc_skip_hooks by exact H. reflexivity.
+  - unfold delete_before_assoc. destruct (is_nil (s_err s) && negb (is_nil (s_recs s))); [|reflexivity].
+    destruct (x_delassoc (c_x c) =? 1); [apply nested_delete_skip_hooks; exact H|].
+    destruct (x_delassoc (c_x c) =? 2); [apply nested_delete_skip_hooks; exact H|reflexivity].
+  - unfold preload_cb. match goal with |- context [if ?b then _ else _] => destruct b end; [|reflexivity].
+    rewrite !nested_query_skip_hooks by exact H. reflexivity.
 Qed.
 
 Lemma run_pipeline_skip_hooks : forall c a q p s, c_skip c = true ->
